@@ -116,7 +116,21 @@ def unhx(a):
     return [float.fromhex(x) for x in a]
 
 
+_CHAINS = {}
+
+
 def build_chain(case):
+    """one MarkovChain object per case["obj"]: the calls of a group reuse it (cdfs are cached lazily in the object)"""
+    key = case.get("obj")
+    if key is not None and key in _CHAINS:
+        return _CHAINS[key]
+    mc = _build_chain(case)
+    if key is not None:
+        _CHAINS[key] = mc
+    return mc
+
+
+def _build_chain(case):
     import scipy.sparse as sp
     from quantecon.markov.core import MarkovChain
     if case.get("csr") is not None:
@@ -345,6 +359,23 @@ def stored_rows(case, mc=None):
     return [list(enumerate(r)) for r in rows]
 
 
+def check_step_float(row, y, u):
+    """the documented rule, recomputed from P itself in binary64 and independently of the Coq model: with
+    cdf = np.cumsum(stored probabilities of the current row), the next state is the target stored at the first
+    position j with u*cdf[-1] < cdf[j]"""
+    tg = [t for t, _ in row]
+    cdf = np.cumsum(np.array([float(p) for _, p in row], dtype=float))
+    v = float(u) * cdf[-1]
+    j = 0
+    while j < len(cdf) and not (v < cdf[j]):
+        j += 1
+    if j >= len(cdf):
+        return "scaled uniform not below the last cumulative sum (expected index %d = len)" % j
+    if tg[j] != y:
+        return "not the inverse-CDF image: searchsorted(cumsum(row), u*cdf[-1]) selects stored position %d -> state %d" % (j, tg[j])
+    return None
+
+
 def check_step(row, y, u):
     """is target y an inverse-CDF image of u for the stored row [(target, prob)]? returns None or a complaint"""
     S = sum(p for _, p in row)
@@ -415,7 +446,8 @@ def oracle_paths(ctx, case, res, rows, kind_override=None):
             return
         if case["kind"] == "mcsp" and case.get("init_form") == "dist":
             psi = [Fraction(x) for x in unhx(init)]
-            why = check_step(list(enumerate(psi)), path[0], stream[0]) if 0 <= path[0] < len(psi) else "initial state out of range"
+            why = (check_step(list(enumerate(psi)), path[0], stream[0]) or check_step_float(list(enumerate(psi)), path[0], stream[0])) \
+                if 0 <= path[0] < len(psi) else "initial state out of range"
             if why:
                 fail("initial_draw", "mc_sample_path initial state: " + why, inp, path[:5], None)
                 return
@@ -427,10 +459,18 @@ def oracle_paths(ctx, case, res, rows, kind_override=None):
             if not (0 <= y < n):
                 fail("range", "entry outside the state space", dict(inp, step=t, row=i), path[:t + 3], None)
                 return
-            why = check_step(rows[x], y, us[t])
+            why = check_step(rows[x], y, us[t]) or check_step_float(rows[x], y, us[t])
             if why:
                 fail("transition", why, dict(inp, step=t, row=i, u=float(us[t]).hex()), [x, y], None)
                 return
+
+
+def drv_expected(q, u):
+    """DiscreteRV's documented rule in binary64, independent of the Coq model: Q = cumsum(q); the number of
+    entries of Q that are <= u*min(Q[-1], 1)"""
+    Q = np.cumsum(np.array(q, dtype=float))
+    v = float(u) * min(Q[-1], 1.0)
+    return int(sum(1 for c in Q if c <= v))
 
 
 # ------------------------------------------------------------------ Coq literals
@@ -467,9 +507,14 @@ def optz(x):
 
 
 def csr_arrays(case):
-    """the arrays the sparse kernel sees, read back from the constructed MarkovChain"""
-    mc = build_chain(case)
-    return (mc.n, [float(x) for x in mc.P.data], [int(x) for x in mc.P.indices], [int(x) for x in mc.P.indptr])
+    """the CSR arrays of the input chain (scipy's conversion of P, or the raw arrays given), built afresh from the
+    input and not read back from the MarkovChain object the implementation has been using"""
+    import scipy.sparse as sp
+    if case.get("csr") is not None:
+        c = case["csr"]
+        return (c["n"], unhx(c["data"]), list(c["indices"]), list(c["indptr"]))
+    A = sp.csr_matrix(np.array([unhx(r) for r in case["P"]], dtype=float))
+    return (A.shape[0], [float(x) for x in A.data], [int(x) for x in A.indices], [int(x) for x in A.indptr])
 
 
 # ------------------------------------------------------------------ the check
@@ -487,11 +532,12 @@ def make_cases(ctx, thorough):
         if rng.random() < 0.5 or mode in ("small", "tenths"):
             variants.append(("csr", noncanonical_csr(rng, rows)))
         for vname, csr in variants:
-            base = {"P": [hx(r) for r in rows], "sparse": vname != "dense", "csr": csr, "mode": mode, "variant": vname}
+            base = {"P": [hx(r) for r in rows], "sparse": vname != "dense", "csr": csr, "mode": mode, "variant": vname,
+                    "obj": "m%d" % len(cases)}       # the calls below share one MarkovChain object
             rt = rows_targets_csr(csr) if csr else rows_targets_dense(rows)
             if vname == "sparse":
                 rt = [([j for j, p in enumerate(r) if p != 0], cumsum_f([p for p in r if p != 0])) for r in rows]
-            ncalls = 3 if not thorough else 4
+            ncalls = 4 if not thorough else 5
             for _ in range(ncalls):
                 kind = rng.choice(["sim_idx", "sim_idx", "sim_idx", "sim", "mcsp"])
                 ts = rng.choice([1, 2, 3, 3, 5, 8, 13, 30 if thorough else 20])
@@ -713,8 +759,8 @@ def run(ctx):
             v = Fraction(u) * scale
             if not (0 <= y < n):
                 ctx.fail("draw_range", "DiscreteRV.draw returned an index outside the support", {"function": "DiscreteRV.draw", "q": hx(q), "u": u.hex()}, y, None)
-            elif not (qf[y] > 0 and sum(qf[:y]) - TOL <= v < sum(qf[:y + 1]) + TOL):
-                ctx.fail("draw_law", "DiscreteRV.draw: not a positive-probability inverse-CDF image", {"function": "DiscreteRV.draw", "q": hx(q), "u": u.hex()}, y, None)
+            elif not (qf[y] > 0 and sum(qf[:y]) - TOL <= v < sum(qf[:y + 1]) + TOL) or y != drv_expected(q, u):
+                ctx.fail("draw_law", "DiscreteRV.draw: not a positive-probability inverse-CDF image", {"function": "DiscreteRV.draw", "q": hx(q), "u": u.hex()}, y, drv_expected(q, u))
         # random.draw (python mode; np.random.random replaced for the duration of the call)
         cdf_a = np.cumsum(q)
         it = iter(us)
@@ -735,7 +781,7 @@ def run(ctx):
             v = Fraction(u) * S
             if not (0 <= y < n):
                 ctx.fail("draw_range", "random.draw returned an index outside the support", {"function": "random.draw", "q": hx(q), "u": u.hex()}, y, None)
-            elif not (qf[y] > 0 and sum(qf[:y]) - TOL <= v < sum(qf[:y + 1]) + TOL):
+            elif not (qf[y] > 0 and sum(qf[:y]) - TOL <= v < sum(qf[:y + 1]) + TOL) or check_step_float(list(enumerate(qf)), y, u):
                 ctx.fail("draw_law", "random.draw: not a positive-probability inverse-CDF image", {"function": "random.draw", "q": hx(q), "u": u.hex()}, y, None)
     # jitted random.draw: the uniforms are recovered by re-seeding Numba's generator
     for q in qs[:40 if thorough else 14]:
@@ -758,6 +804,47 @@ def run(ctx):
                         "fun c => let '(cdf, us, exp) := c in res_eqb Zs_eqb (qe_draw cdf us) exp", wcases, chunk=60, preamble=PREAMBLE)
     for i in bad:
         ctx.mismatch("C10.Model.qe_draw (float instance) vs quantecon.random.draw", {"q": hx(wmeta[i][0]), "us": hx(wmeta[i][1])}, wmeta[i][2])
+
+    # ---- DiscreteRV as an object: construct; q re-assignments (the setter recomputes Q); draws.  Model = fold over the operations
+    scases, smeta = [], []
+    below1 = [[0.1] * 10, [0.7, 0.2, 0.1], [1 / 3.0] * 3, [0.1] * 3 + [0.7], [1 / 7.0] * 7, [0.3, 0.3]]
+    for _ in range(180 if thorough else 60):
+        q0 = rng.choice(qs)
+        drv = DiscreteRV(list(q0) if rng.random() < 0.5 else np.array(q0))
+        cur, ops, outs, opl = list(q0), [], [], []
+        for _o in range(rng.randrange(1, 7)):
+            if rng.random() < 0.45:
+                cur = list(rng.choice(below1) if rng.random() < 0.6 else rng.choice(qs))
+                drv.q = list(cur) if rng.random() < 0.5 else np.array(cur)
+                ops.append("(DSetQ %s)" % flist(cur))
+                opl.append(["set", hx(cur)])
+                if [float(x) for x in np.asarray(drv.q)] != cur:
+                    ctx.fail("drv_state", "DiscreteRV.q does not return the probabilities just assigned", {"function": "DiscreteRV", "ops": opl}, None, None)
+            else:
+                cdf = cumsum_f(cur)
+                k = rng.choice([1, 2, 5])
+                us = [rng.choice([0.0, ONE_M, pick_u(rng, cdf), pick_u(rng, cdf)]) for _ in range(k)]
+                out = [int(v) for v in drv.draw(k, random_state=ScriptedRS(us))]
+                ops.append("(DDraw %s)" % flist(us))
+                opl.append(["draw", hx(us), out])
+                outs.append("(Ok %s)" % zlist(out))
+                qf = [Fraction(x) for x in cur]
+                scale = min(sum(qf), Fraction(1))
+                for u, y in zip(us, out):
+                    okd = 0 <= y < len(cur) and qf[y] > 0 and sum(qf[:y]) - TOL <= Fraction(u) * scale < sum(qf[:y + 1]) + TOL and y == drv_expected(cur, u)
+                    if not okd:
+                        ctx.fail("draw_law", "DiscreteRV.draw after re-assigning q: index out of range or not the inverse-CDF image w.r.t. the current q",
+                                 {"function": "DiscreteRV.sequence", "q0": hx(q0), "ops": opl, "u": float(u).hex(), "current_q": hx(cur)}, y, drv_expected(cur, u))
+                        break
+        ctx.case(("drv-seq", hx(q0), opl), nontrivial=(len(opl) >= 2))
+        ctx.count("draw:DiscreteRV.sequence")
+        ctx.count("draw:DiscreteRV.sequence.ops", len(opl))
+        scases.append(tup(flist(q0), "[" + "; ".join(ops) + "]", "[" + "; ".join(outs) + "]" if outs else "(@nil (res (list Z)))"))
+        smeta.append({"q0": hx(q0), "ops": opl})
+    bad = ctx.coq_check("DiscreteRV_sequence", IMPORTS, "list float * list (@drv_op float) * list (res (list Z))",
+                        "fun c => let '(q0, ops, exp) := c in list_eqb (res_eqb Zs_eqb) (drv_run q0 ops) exp", scases, chunk=30, preamble=PREAMBLE)
+    for i in bad:
+        ctx.mismatch("C10.Model.drv_run (float instance) vs DiscreteRV object sequence", smeta[i])
 
     # ---- equal seeds give equal paths; genuine random streams (recorded) through oracle + model
     rcases, rmeta = [], []
